@@ -44,8 +44,8 @@ def draw_pair(rng, prev):
 class C07(Check):
     prop = "C07"
     quick_runs = 96
-    thorough_runs = 4000
-    run_wall = 180.0
+    thorough_runs = 3000
+    run_wall = 600.0
     rule = ("one run = 1..3 connections of the same Diameter object (client or server role); per connection a history of "
             "base requests from the peer (CER, bursts of coalesced DWRs, CER in Open, DPR) with boundary / repeated / "
             "swapped / random identifier pairs, interleaved with application traffic in both directions, under a seeded "
